@@ -217,7 +217,7 @@ class AbstractDomain:
         bx = [z3.Real(core.fresh_name(f"{self.name}_box{j}")) for j in range(2 * self.dim)]
         self.box = (bx, params)
         for i in range(self.dim):
-            I.ctx.axiom(bx[2 * i] <= bx[2 * i + 1])
+            I.ctx.axiom(bx[2 * i] < bx[2 * i + 1] if getattr(self, "strict_box", False) else bx[2 * i] <= bx[2 * i + 1])
         return Tensor(STensor([Dim([2 * self.dim])], lambda idx: core.select_comp(idx[0][0], 2 * self.dim, [(lambda b=b: b) for b in bx]), "real"))
 
     def box_fact(self, xs, ps_row_terms):
@@ -313,3 +313,61 @@ class AbstractSampler:
         p = I.instantiate(I.repo.find(POINTS), [t, space], {})
         self.calls.append({"params": params, "device": device, "result": p, "rows": rows, "tensor": t})
         return p
+
+
+MODEL = "torchphysics.models.model.Model"
+
+
+class AbstractModel:
+    """Model operand under its contract (C08): output row = M(input row bound BY NAME), rejects inputs whose
+    variable set differs from the declared input space; owns one learnable parameter tensor `theta`."""
+
+    def __init__(self, S, name, input_space, output_space):
+        I = S.I
+        self.S, self.I, self.name = S, I, name
+        self.input_space, self.output_space = input_space, output_space
+        self.ivars, self.ovars = space_items(I, input_space), space_items(I, output_space)
+        self.nin = sum(d for _, d in self.ivars)
+        self.nout = sum(d for _, d in self.ovars)
+        self.M = [z3.Function(f"{name}_out{c}", *([z3.RealSort()] * self.nin + [z3.RealSort()])) for c in range(self.nout)]
+        obj = I.new_without_init(S.find(MODEL))
+        for c in obj.cls.mro():
+            if "__init__" in getattr(c, "native_methods", {}) and c.name == "nn.Module":
+                c.native_methods["__init__"](I, obj)
+        obj.f["input_space"], obj.f["output_space"] = input_space, output_space
+        theta = I.call(I.repo.externals["torch"].get("nn").get("Parameter"), [Tensor(core.uninterp_tensor(f"{name}_theta", [Dim([3])], "real"))])
+        I.setattr(obj, "theta", theta)
+        self.theta = theta
+        obj.f["__overrides__"] = {"forward": self._forward, "__call__": self._forward}
+        obj.f["__abstract__"] = self
+        self.obj = obj
+        self.calls = []
+
+    def out_terms(self, ins):
+        return [m(*ins) for m in self.M]
+
+    def _forward(self, I, selfobj, points):
+        IN = _IN()
+        keys = list(points.f["space"].native.keys())
+        if set(keys) != {n for n, _ in self.ivars}:
+            raise IN.RaisedEx("ValueError", "Points are in another space than the model's input space", I.ctx.loc)
+        xc = coords_of(I, points)
+        pt = points.f["_t"].val
+        batch = pt.shape[:-1]
+        nb = len(batch)
+        self.calls.append({"points": points})
+        me = self
+
+        def fn(idx):
+            bi = list(idx[:nb])
+            ins = []
+            for nm, dm in me.ivars:
+                for k in range(dm):
+                    ins.append(zreal(xc[nm].at(bi + [(k,) if dm != 1 else ()])))
+            outs = me.out_terms(ins)
+            c = idx[nb][0] if me.nout != 1 else 0
+            return core.select_comp(c, me.nout, [(lambda o=o: o) for o in outs])
+
+        t = Tensor(STensor(list(batch) + [Dim([self.nout])], fn, "real", f"{self.name}.out"))
+        t.meta["model_input"] = points
+        return I.instantiate(I.repo.find(POINTS), [t, self.output_space], {})
